@@ -115,6 +115,64 @@ fn col_string<F: PrimeField>(col: &[CellValue<F>]) -> String {
         .collect())
 }
 
+/// Like `table_string`, but the copy constraints are the ones the circuit REQUESTED
+/// (recorded by `copyrec::requested_copies`), not the cycles stored by the key-generation
+/// `Assembly`.
+pub fn table_string_requested<F: PrimeField + ff::FromUniformBytes<64> + Ord>(
+    mp: &MockProver<F>,
+    n: usize,
+    copies: &[(crate::copyrec::CellRef, crate::copyrec::CellRef)],
+) -> String {
+    let cols: Vec<(char, usize)> = mp
+        .cs()
+        .permutation()
+        .get_columns()
+        .iter()
+        .map(|c| {
+            let k = match c.column_type() {
+                Any::Advice(_) => 'a',
+                Any::Fixed => 'f',
+                Any::Instance => 'i',
+            };
+            (k, c.index())
+        })
+        .collect();
+    let idx = |c: &crate::copyrec::CellRef| cols.iter().position(|x| *x == (c.0, c.1)).expect("copy on a column outside the permutation");
+    let cp: Vec<String> = copies.iter().map(|(a, b)| format!("{}.{}.{}.{}", idx(a), a.2, idx(b), b.2)).collect();
+    let base = table_string(mp, n);
+    // replace the cp= field
+    base.split(' ')
+        .map(|f| if f.starts_with("cp=") { format!("cp={}", list(cp.clone(), ",")) } else { f.to_string() })
+        .collect::<Vec<_>>()
+        .join(" ")
+}
+
+/// Do the requested copy constraints hold on the table?
+pub fn requested_copies_hold<F: PrimeField + ff::FromUniformBytes<64> + Ord>(
+    mp: &MockProver<F>,
+    copies: &[(crate::copyrec::CellRef, crate::copyrec::CellRef)],
+) -> bool {
+    let val = |c: &crate::copyrec::CellRef| -> Option<F> {
+        match c.0 {
+            'a' => match mp.advice()[c.1][c.2] {
+                CellValue::Assigned(v) => Some(v),
+                CellValue::Unassigned => Some(F::ZERO),
+                CellValue::Poison(_) => None,
+            },
+            'f' => match mp.fixed()[c.1][c.2] {
+                CellValue::Assigned(v) => Some(v),
+                CellValue::Unassigned => Some(F::ZERO),
+                CellValue::Poison(_) => None,
+            },
+            _ => match mp.instance()[c.1][c.2] {
+                InstanceValue::Assigned(v) => Some(v),
+                InstanceValue::Padding => Some(F::ZERO),
+            },
+        }
+    };
+    copies.iter().all(|(a, b)| val(a) == val(b))
+}
+
 /// `n=… ch=… cp=… fixed=… advice=… inst=…` of a mock-prover table.
 pub fn table_string<F: PrimeField + ff::FromUniformBytes<64> + Ord>(mp: &MockProver<F>, n: usize) -> String {
     let fixed: Vec<String> = mp.fixed().iter().map(|c| col_string(c)).collect();
